@@ -7,6 +7,7 @@
 import Model.Obsolete
 import Lemmas.Obsolete
 import Lemmas.ObsoleteHist
+import Lemmas.ObsoleteRuns
 
 namespace DI.C17
 
@@ -88,5 +89,239 @@ example : warnCount 0 (init 1) [.editInPlace 0 [0], .use 0, .use 0, .derive 0 [0
 /-- non-vacuity: a chain root → filter → sort → modify marks all three ancestors, not the result. -/
 example : ((run (init 2) [.derive 0 [0, 1] 0, .derive 1 [1, 0] 0, .editInPlace 2 [0, 1]]).map
     (fun p => p.2.lists.map (·.obsolete))).getLast? = some [true, true, true, false] := by decide
+
+/-! ## whole histories (all finite call sequences) — Lemmas/ObsoleteRuns.lean
+
+  Vocabulary (defined in Lemmas/ObsoleteRuns.lean):
+  `runFinal w ops` — the world after the history `ops`; `ops = pre ++ op :: post` — the call `op`
+  is made in the world `runFinal w pre`; `isObs w i` / `isWarned w i` — the `_obsolete` /
+  `_obsolete_warned` flag of list `i`; `Anc ls i r` — `i` lies on the `_predecessor` chain of `r`
+  (`i = r` or `i` is an ancestor of `r`), a fuel-free inductive relation; `PredOlder ls` — every
+  `_predecessor` is a strictly older list; `WF w` — `PredOlder w.lists` and all items are allocated
+  dicts (holds for `init n`, preserved by every call);
+  `Op.isEdit` — the `@obsoletes` methods; `Op.isPoke` — a direct item write, which does not go
+  through `__getattribute__`. -/
+
+/-- the initial world is well-formed and has no obsolete list: the hypotheses below are satisfiable. -/
+theorem init_wellformed (n : Nat) : WF (init n) ∧ ∀ j, isObs (init n) j = false :=
+  ⟨init_WF n, init_not_obsolete n⟩
+
+/-- **`pred_older` (invariant)**: well-formedness — every `_predecessor` is a strictly older list
+    (so chains are acyclic) and every item is an allocated dict — holds after every history. -/
+theorem pred_older (w : World) (hwf : WF w) (ops : List Op) : WF (runFinal w ops) :=
+  run_WF ops w hwf
+
+/-- `pred_older` spelled out for one pointer of one list of a reachable world. -/
+theorem pred_older_pointwise (w : World) (hpo : PredOlder w.lists) (ops : List Op) (i : Nat)
+    (l : LObj) (p : Nat) (hl : (runFinal w ops).lists[i]? = some l) (hp : l.pred = some p) : p < i :=
+  run_pred_older w hpo ops i l p hl hp
+
+/-- **`pred_stable`**: along every history an existing list keeps its `_predecessor` pointer and
+    the identities of its items (no method ever re-points or re-fills an existing list). -/
+theorem pred_stable (w : World) (ops : List Op) (i : Nat) (l : LObj) (h : w.lists[i]? = some l) :
+    ∃ l', (runFinal w ops).lists[i]? = some l' ∧ l'.items = l.items ∧ l'.pred = l.pred :=
+  run_old ops w i l h
+
+/-- ancestry is stable: for a list `r` existing now, "`i` is on `r`'s chain" has the same truth
+    value now and after any further history. -/
+theorem ancestry_stable (w : World) (hpo : PredOlder w.lists) (ops : List Op) (i r : Nat) :
+    Anc w.lists i r ↔ (r < w.lists.length ∧ Anc (runFinal w ops).lists i r) :=
+  anc_stable hpo (run_ext w ops) i r
+
+/-- in a well-formed world the fuelled chain walked by `_mark_obsolete` (fuel = number of lists) is
+    exactly the fuel-free ancestor relation: the fuel never runs out. -/
+theorem chain_is_ancestry (w : World) (hpo : PredOlder w.lists) (i r : Nat) :
+    i ∈ chain w.lists.length w.lists r ↔ Anc w.lists i r :=
+  mem_chain_iff_anc hpo i r
+
+/-- **clause 1, history characterisation of obsolescence.** Along any history from a world with
+    older predecessors in which no list is obsolete, list `i` is obsolete at the end IFF some `@obsoletes` call
+    in the history had a receiver whose predecessor chain — at the time of the call — contained
+    `i` (the receiver was `i` itself or a descendant of `i`). -/
+theorem obsolete_iff_edited_descendant (w : World) (hpo : PredOlder w.lists)
+    (hclean : ∀ j, isObs w j = false) (ops : List Op) (i : Nat) :
+    isObs (runFinal w ops) i = true ↔
+      ∃ pre op post, ops = pre ++ op :: post ∧ op.isEdit = true ∧
+        Anc (runFinal w pre).lists i op.recv :=
+  obsolete_iff_clean w hpo hclean ops i
+
+/-- clause 1 with ancestry read off the *final* world (legitimate because ancestry is stable): `i`
+    is obsolete iff some `@obsoletes` call was made on an already existing receiver that is, in
+    the final predecessor forest, `i` or a descendant of `i`. -/
+theorem obsolete_iff_edited_descendant_final (w : World) (hpo : PredOlder w.lists)
+    (hclean : ∀ j, isObs w j = false) (ops : List Op) (i : Nat) :
+    isObs (runFinal w ops) i = true ↔
+      ∃ pre op post, ops = pre ++ op :: post ∧ op.isEdit = true ∧
+        op.recv < (runFinal w pre).lists.length ∧ Anc (runFinal w ops).lists i op.recv :=
+  obsolete_iff_final_clean w hpo hclean ops i
+
+/-- clause 1 from an arbitrary well-formed start (some lists may already be obsolete): obsolete at
+    the end iff obsolete at the start or edited-as-ancestor during the history. -/
+theorem obsolete_iff_start_or_edited (w : World) (hpo : PredOlder w.lists) (ops : List Op) (i : Nat) :
+    isObs (runFinal w ops) i = true ↔
+      (isObs w i = true ∨
+        ∃ pre op post, ops = pre ++ op :: post ∧ op.isEdit = true ∧
+          Anc (runFinal w pre).lists i op.recv) :=
+  obsolete_iff w hpo ops i
+
+/-- clause 1 for every history from the initial world `init n` (no hypotheses left). -/
+theorem obsolete_iff_edited_descendant_init (n : Nat) (ops : List Op) (i : Nat) :
+    isObs (runFinal (init n) ops) i = true ↔
+      ∃ pre op post, ops = pre ++ op :: post ∧ op.isEdit = true ∧
+        Anc (runFinal (init n) pre).lists i op.recv :=
+  obsolete_iff_init n ops i
+
+/-- **clause 2, deepcopy isolation over whole histories (invariant + per-call form).** Let `c` be
+    the list returned by `deepcopy r` in a well-formed world (`c = w0.lists.length`). After *any*
+    history `pre`: (a) no dict object is shared between `c`'s family (`c` and its descendants)
+    and any list outside it, and (b) any further call `op` whose receiver lies on one side of
+    that boundary leaves every item of every list on the other side unwritten — edits through
+    the copy (or lists derived from it) are never observed by the originals, and vice versa. -/
+theorem deepcopy_never_observed (w0 : World) (hwf : WF w0) (r : Nat) (hr : r < w0.lists.length)
+    (pre : List Op) :
+    Iso w0.lists.length (runFinal (step w0 (.deepcopy r)).1 pre) ∧
+    ∀ (op : Op) (j : Nat) (l : LObj) (d : Nat),
+      (runFinal (step w0 (.deepcopy r)).1 pre).lists[j]? = some l → d ∈ l.items →
+      (Anc (runFinal (step w0 (.deepcopy r)).1 pre).lists w0.lists.length op.recv ↔
+        ¬ Anc (runFinal (step w0 (.deepcopy r)).1 pre).lists w0.lists.length j) →
+      (step (runFinal (step w0 (.deepcopy r)).1 pre) op).1.vers[d]? =
+        (runFinal (step w0 (.deepcopy r)).1 pre).vers[d]? :=
+  deepcopy_isolated_forever w0 hwf r hr pre
+
+/-- what `Iso c w` says (definitional unfolding, for the reader of clause 2). -/
+theorem iso_def (c : Nat) (w : World) :
+    Iso c w ↔ ∀ (j j' : Nat) (l l' : LObj), w.lists[j]? = some l → w.lists[j']? = some l' →
+      Anc w.lists c j → ¬ Anc w.lists c j' → ∀ d, d ∈ l.items → d ∉ l'.items :=
+  Iff.rfl
+
+/-- **clause 2, end to end.** After `deepcopy r` (result `c`), take any list `j` and any history in
+    which every call's receiver is on the other side of `c`'s family boundary than `j` (`j = c`
+    and all calls on originals and lists derived from them; or `j` an original and all calls on
+    the copy and lists derived from it). Then the version of every item of `j` at the end of the
+    history is what it was right after the deepcopy: nothing was written. -/
+theorem deepcopy_never_observed_end_to_end (w0 : World) (hwf : WF w0) (r : Nat)
+    (hr : r < w0.lists.length) (ops : List Op) (j : Nat) (l : LObj)
+    (hl : (step w0 (.deepcopy r)).1.lists[j]? = some l)
+    (hside : ∀ pre op post, ops = pre ++ op :: post →
+      (Anc (runFinal (step w0 (.deepcopy r)).1 pre).lists w0.lists.length op.recv ↔
+        ¬ Anc (runFinal (step w0 (.deepcopy r)).1 pre).lists w0.lists.length j)) :
+    ∀ d ∈ l.items,
+      (runFinal (step w0 (.deepcopy r)).1 ops).vers[d]? = (step w0 (.deepcopy r)).1.vers[d]? :=
+  deepcopy_other_side_untouched w0 hwf r hr ops j l hl hside
+
+/-- the isolation invariant is not specific to `deepcopy`: whenever a family shares no dict with the
+    rest, no history can ever make it share one. -/
+theorem isolation_is_invariant (c : Nat) (w : World) (hwf : WF w) (hc : c < w.lists.length)
+    (hiso : Iso c w) (ops : List Op) : Iso c (runFinal w ops) :=
+  run_iso c ops w hwf hc hiso
+
+/-- every call, whatever it is, writes only dicts that are items of its receiver at call time
+    (generalises `edit_writes_only_own_items` to all six kinds of call). -/
+theorem writes_only_receiver_items (w : World) (op : Op) (d : Nat) (hd : d < w.vers.length)
+    (h : ∀ l, w.lists[op.recv]? = some l → d ∉ l.items) :
+    (step w op).1.vers[d]? = w.vers[d]? :=
+  step_vers_unchanged w op d hd h
+
+/-- **clause 3.** The list returned by an `@obsoletes` call on an existing receiver is new, not
+    obsolete, not warned, and has the receiver as predecessor; and along every later history it is
+    obsolete exactly when some later `@obsoletes` call had it on its receiver's chain — i.e. was
+    made on the result itself or on one of its descendants. (Apply with `w := runFinal w0 pre`,
+    whose predecessors are older by `pred_older`, to place the call anywhere in a history.) -/
+theorem result_of_edit_fresh_chain (w : World) (hpo : PredOlder w.lists) (op : Op) (he : op.isEdit = true)
+    (hr : op.recv < w.lists.length) (post : List Op) :
+    (∃ new, (step w op).1.lists[w.lists.length]? = some new ∧ new.obsolete = false ∧
+        new.warned = false ∧ new.pred = some op.recv) ∧
+    (isObs (runFinal (step w op).1 post) w.lists.length = true ↔
+      ∃ p1 o p2, post = p1 ++ o :: p2 ∧ o.isEdit = true ∧
+        Anc (runFinal (step w op).1 p1).lists w.lists.length o.recv) :=
+  edit_result_chain w hpo op he hr post
+
+/-- obsolescence is permanent: no history clears the flag. -/
+theorem obsolete_forever (w : World) (ops : List Op) (i : Nat) (h : isObs w i = true) :
+    isObs (runFinal w ops) i = true :=
+  isObs_run_mono w ops i h
+
+/-- when exactly one call prints the warning: it accesses an attribute of the receiver (is not a
+    direct item write), the receiver is obsolete and has not warned yet. -/
+theorem warning_printed_iff (w : World) (op : Op) :
+    (step w op).2 = (!op.isPoke && isObs w op.recv && !isWarned w op.recv) :=
+  step_printed_eq w op
+
+/-- **clause 4, exactly once.** Along any history from any world in which `r` has not warned yet,
+    the number of warnings printed for `r` is 1 if somewhere in the history an attribute-accessing
+    call has receiver `r` while `r` is obsolete, and 0 if there is no such call. -/
+theorem warning_exactly_once (r : Nat) (w : World) (hnw : isWarned w r = false) (ops : List Op) :
+    (warnCount r w ops = 1 ↔
+      ∃ pre op post, ops = pre ++ op :: post ∧ op.recv = r ∧ op.isPoke = false ∧
+        isObs (runFinal w pre) r = true) ∧
+    (warnCount r w ops = 0 ↔
+      ¬ ∃ pre op post, ops = pre ++ op :: post ∧ op.recv = r ∧ op.isPoke = false ∧
+        isObs (runFinal w pre) r = true) :=
+  warnCount_exact r w hnw ops
+
+/-- clause 4 for arbitrary worlds, in executable form. -/
+theorem warning_count_formula (r : Nat) (ops : List Op) (w : World) :
+    warnCount r w ops = (!isWarned w r && usedWhileObsolete r w ops).toNat :=
+  warnCount_eq r ops w
+
+/-- **clause 4, progress and safety.** Once `r` is obsolete and has not warned: after any history
+    that makes no attribute access on `r`, the next attribute-accessing call on `r` prints the
+    warning, and after that no history prints it again. -/
+theorem warning_progress_then_never_again (w : World) (r : Nat) (ho : isObs w r = true)
+    (hw : isWarned w r = false) (ops : List Op) (hno : ∀ o ∈ ops, o.recv = r → o.isPoke = true)
+    (op : Op) (hr : op.recv = r) (hk : op.isPoke = false) :
+    (step (runFinal w ops) op).2 = true ∧
+    ∀ post, warnCount r (step (runFinal w ops) op).1 post = 0 :=
+  next_use_warns w r ho hw ops hno op hr hk
+
+/-! ### non-vacuity (clause 5): concrete short histories by `decide` -/
+
+/-- root → filter → sort → modify → head: the three ancestors of the edited list are obsolete, the
+    result and its derivative are not; the executable characterisation agrees list by list. -/
+example :
+    let ops : List Op := [.derive 0 [0, 1] 0, .derive 1 [1, 0] 0, .editInPlace 2 [0, 1], .derive 3 [0] 0]
+    (List.range 5).map (isObs (runFinal (init 2) ops)) = [true, true, true, false, false] ∧
+    (List.range 5).map (fun i => editedAnc i (init 2) ops) = [true, true, true, false, false] := by
+  decide
+
+/-- siblings are not ancestors: editing one filter result does not obsolete the other. -/
+example :
+    (List.range 4).map (isObs (runFinal (init 2) [.derive 0 [0] 0, .derive 0 [1] 0, .editFresh 1])) =
+      [true, true, false, false] := by decide
+
+/-- the result of an edit is fresh, and becomes obsolete through an edit on its descendant. -/
+example :
+    isObs (runFinal (init 1) [.editFresh 0]) 1 = false ∧
+    isObs (runFinal (init 1) [.editFresh 0, .derive 1 [0] 0, .use 2]) 1 = false ∧
+    isObs (runFinal (init 1) [.editFresh 0, .derive 1 [0] 0, .editInPlace 2 [0]]) 1 = true := by
+  decide
+
+/-- deepcopy isolation: edits through the copy (list 1, dicts 2 and 3) and through a list derived
+    from it never touch the original's dicts 0 and 1; an edit and a direct write on the original
+    never touch the copy's dicts. -/
+example :
+    (runFinal (init 2) [.deepcopy 0, .editInPlace 1 [0, 1], .derive 1 [1] 0, .editInPlace 3 [0]]).vers =
+      [0, 0, 1, 2] ∧
+    (runFinal (init 2) [.deepcopy 0, .editInPlace 0 [0], .poke 0 1, .poke 0 1]).vers = [1, 2, 0, 0] := by
+  decide
+
+/-- sharing *is* observed without deepcopy (the invariant is not trivially true): a filter result
+    shares dict 0 with the root, so an in-place edit of the result writes the root's item. -/
+example : (runFinal (init 2) [.derive 0 [0] 0, .editInPlace 1 [0]]).vers = [1, 0] := by decide
+
+/-- exactly once: 0 without a use while obsolete (a direct item write does not count), 1 with one or
+    many uses; a list that is never edited never warns. -/
+example :
+    warnCount 0 (init 1) [.editInPlace 0 [0], .use 1, .poke 0 0] = 0 ∧
+    warnCount 0 (init 1) [.editInPlace 0 [0], .use 1, .use 0] = 1 ∧
+    warnCount 0 (init 1) [.editInPlace 0 [0], .use 0, .derive 0 [0] 0, .editFresh 0, .use 0] = 1 ∧
+    warnCount 0 (init 1) [.use 0, .derive 0 [0] 0, .use 0] = 0 ∧
+    usedWhileObsolete 0 (init 1) [.editInPlace 0 [0], .use 1, .use 0] = true := by
+  decide
+
+/-- an ancestor warns too: editing a filter result makes the root warn on its next use. -/
+example :
+    (run (init 1) [.derive 0 [0] 0, .editInPlace 1 [0], .use 0, .use 0]).map (·.1) =
+      [false, false, true, false] := by decide
 
 end DI.C17
